@@ -13,7 +13,8 @@ def handle (op : String) (j : Json) : Option Json :=
       let g := xs.foldl RB.Gen.Statistics.add_sample RB.Gen.Statistics.init
       let s := addAll init xs
       let same := g.num_samples == (s.n : Rat) && g.mean == s.mean &&
-        g.variance_times_num_samples == s.m2 && g.min == s.min && g.max == s.max
+        g.variance_times_num_samples == s.m2 && g.min == s.min && g.max == s.max &&
+        g.std_dev_sq == s.m2 / (s.n : Rat)
       pure (Json.mkObj [("same", Json.bool same)])
   | _ => none
 
